@@ -6,6 +6,7 @@ import collections
 import copy
 import hashlib
 import random
+import re
 
 from . import ops as O
 from . import progen
@@ -142,11 +143,59 @@ def gen_mutation(rng, tree, n_other):
                 c.append((path, 'op', '__op__'))
             elif isinstance(node, ast.alias) and node.asname:
                 c.append((path, 'asname', 'new_as'))
+            # every other primitive / operator field (values chosen so that most results stay valid; the caller
+            # discards mutations whose result does not survive ast.unparse -> ast.parse)
+            if isinstance(node, ast.ImportFrom):
+                c.append((path, 'level', (node.level or 0) + 1))
+                if node.level and node.module:
+                    c.append((path, 'level', 0))
+                if node.module:
+                    c.append((path, 'module', 'new_mod.sub'))
+            if isinstance(node, ast.alias) and node.name != '*':
+                c.append((path, 'name', 'new_alias'))
+                if not node.asname:
+                    c.append((path, 'asname', 'added_as'))
+                else:
+                    c.append((path, 'asname', None))
+            if isinstance(node, ast.comprehension):
+                c.append((path, 'is_async', 0 if node.is_async else 1))
+            if isinstance(node, ast.Constant) and isinstance(node.value, str) and not isinstance(parent, (ast.JoinedStr, ast.MatchValue, ast.MatchMapping)):
+                c.append((path, 'kind', None if node.kind else 'u'))
+            if isinstance(node, ast.Constant) and not isinstance(parent, (ast.JoinedStr, ast.MatchValue, ast.MatchMapping, ast.UnaryOp, ast.BinOp, ast.Expr, ast.Attribute)):
+                c.append((path, 'value', rng.choice([3.5, None, True, b'by', 'other str', 17])))
+            if isinstance(node, ast.FormattedValue) and node.format_spec is None:
+                c.append((path, 'conversion', 114 if node.conversion == -1 else -1))
+            if isinstance(node, ast.ExceptHandler) and node.type is not None:
+                c.append((path, 'name', 'new_exc' if not node.name else None))
+            if isinstance(node, (ast.MatchAs, ast.MatchStar)) and node.name:
+                c.append((path, 'name', 'new_cap'))
+            if isinstance(node, ast.MatchMapping):
+                c.append((path, 'rest', None if node.rest else 'new_rest'))
+            if isinstance(node, ast.MatchSingleton):
+                c.append((path, 'value', rng.choice([None, True, False])))
+            if isinstance(node, (ast.TypeVar, ast.ParamSpec, ast.TypeVarTuple)):
+                c.append((path, 'name', 'NewT'))
+            if isinstance(node, (ast.Global, ast.Nonlocal)):
+                c.append((path, 'names', '__names__'))
+            if isinstance(node, ast.UnaryOp):
+                c.append((path, 'op', '__op__' + rng.choice(['Not', 'USub', 'UAdd', 'Invert'])))
+            if isinstance(node, ast.BoolOp):
+                c.append((path, 'op', '__op__' + ('Or' if isinstance(node.op, ast.And) else 'And')))
+            if isinstance(node, ast.AugAssign):
+                c.append((path, 'op', '__op__'))
+            if isinstance(node, ast.Compare):
+                c.append((path, 'ops', '__cmpop__'))
         if not c:
             return None
         path, fld, val = rng.choice(c)
         if val == '__op__':
             val = '__op__' + rng.choice(['Add', 'Sub', 'Mult', 'BitOr', 'FloorDiv', 'Pow', 'MatMult'])
+        if val == '__cmpop__':
+            val = '__cmpop__' + rng.choice(['Lt', 'GtE', 'Eq', 'NotEq', 'Is', 'IsNot', 'In', 'NotIn']) + ':' + str(rng.randrange(8))
+        if val == '__names__':
+            val = '__names__' + str(rng.randrange(8))
+        if isinstance(val, bytes):
+            val = '__bytes__' + val.decode()
         return {'m': kind, 'path': P(path), 'field': fld, 'value': val}
     return None
 
@@ -175,6 +224,17 @@ def apply_mutation(tree, mut, others, live):
         v = mut['value']
         if isinstance(v, str) and v.startswith('__op__'):
             v = getattr(ast, v[6:])()
+        elif isinstance(v, str) and v.startswith('__cmpop__'):
+            name, k = v[9:].split(':')
+            ops = node.ops
+            ops[int(k) % len(ops)] = getattr(ast, name)()
+            return
+        elif isinstance(v, str) and v.startswith('__names__'):
+            names = node.names
+            names[int(v[9:]) % len(names)] = 'renamed_global'
+            return
+        elif isinstance(v, str) and v.startswith('__bytes__'):
+            v = v[9:].encode()
         if not hasattr(node, mut['field']):
             raise KeyError('field')
         setattr(node, mut['field'], v)
@@ -412,10 +472,49 @@ class ReconRun:
                             if isinstance(tn, ast.If) and len(tn.orelse) == 1 and isinstance(tn.orelse[0], ast.If):
                                 self.flags.add('into_orelse_of_if_with_lone_if')
                     for p in (mut['path'], mut.get('to_path')):
-                        if p:
-                            top = resolve(pure, [tuple(p[0])])
-                            if top is not None:
-                                touched.add(id(top))
+                        if p is None:
+                            continue
+                        pth = [tuple(x) for x in p]
+                        # family of C01-K24 / C04-K2: the statement is written with explicit line continuations
+                        top = resolve(pure, pth[:1]) if pth else None
+                        blk = orig_blocks.get(id(top)) if top is not None else None
+                        if blk is not None and re.search(r'\\[ \t]*(\n|$)', '\n'.join(src0.split('\n')[blk[1] - 1:blk[2]])):
+                            self.flags.add('touches_stmt_with_line_continuation')
+                        # family of C07-K3 / C08-K1: unparenthesized Subscript.slice tuple
+                        for kk in range(len(pth) + 1):
+                            nd = resolve(pure, pth[:kk])
+                            if isinstance(nd, ast.Subscript) and isinstance(nd.slice, ast.Tuple) and kk < len(pth) and pth[kk][0] == 'slice':
+                                self.flags.add('inside_subscript_slice_tuple')
+                        cn = resolve(pure, pth)
+                        if isinstance(cn, ast.Subscript) and isinstance(cn.slice, ast.Tuple) and mut.get('field') == 'slice':
+                            self.flags.add('inside_subscript_slice_tuple')
+                    if mut['m'] == 'prim' and mut.get('field') in ('name', 'asname', 'module'):
+                        # family of C01-K7 / K25: dotted names written with whitespace or continuations between the parts
+                        pth = [tuple(x) for x in mut['path']]
+                        tn = resolve(root.a, pth)
+                        st = tn if isinstance(tn, ast.ImportFrom) else resolve(root.a, pth[:-1]) if pth else None
+                        if isinstance(st, (ast.Import, ast.ImportFrom)) and hasattr(st, 'end_lineno'):
+                            try:
+                                seg = ast.get_source_segment(root.src, st) or ''
+                            except Exception:
+                                seg = ''
+                            if re.search(r'[\w\]][ \t\\\n]+\.|\.[ \t\\\n]+\w', seg):
+                                self.flags.add('prim_on_dotted_name_written_with_whitespace')
+                    for p in (mut['path'], mut.get('to_path')):
+                        # every node on the way down is touched (by identity: the same statement object may sit at
+                        # several places after dup_same / move, also below another statement)
+                        for kk in range(1, len(p or ()) + 1):
+                            nd = resolve(pure, [tuple(x) for x in p[:kk]])
+                            if nd is not None:
+                                touched.add(id(nd))
+                    if mut['m'] in ('move', 'delete', 'swap', 'dup_same', 'dup_copy') and mut.get('field'):
+                        cn = resolve(pure, [tuple(x) for x in mut['path']])
+                        lst = getattr(cn, mut['field'], None) if cn is not None else None
+                        for key in ('idx', 'src_idx', 'i', 'j'):
+                            if isinstance(lst, list) and isinstance(mut.get(key), int) and 0 <= mut[key] < len(lst) and isinstance(lst[mut[key]], ast.AST):
+                                if mut['m'] != 'dup_copy' and not (mut['m'] in ('dup_same',) and key == 'idx'):
+                                    if cn is not pure:   # element of a nested list: the element object itself is involved
+                                        touched.add(id(lst[mut[key]]))
                     try:
                         apply_mutation(pure, mut, others, False)
                         apply_mutation(root.a, mut, others, True)
